@@ -14,7 +14,10 @@
 (***************************************************************************)
 EXTENDS Integers, Sequences, FiniteSets, TLC
 
-CONSTANTS Threads,      \* e.g. 1..2
+CONSTANTS MayCrash,     \* may a caller die (panic) while it is stopped at one of its hold points?  A caller that dies between
+                        \* writing its request and reading the answer leaves that transaction open for good: the endpoint
+                        \* lock is never released (in the code: the poisoned mutex keeps every other clone out)
+          Threads,      \* e.g. 1..2
           Kind          \* function Threads -> {"reply", "ack", "ff", "cfg0", "cfg1"}
                         \* cfg0 / cfg1: a thread that switches the endpoint's reply-ack setting off / on (it takes the
                         \* endpoint lock like a call, writes nothing).  When such a thread exists, whether an "ack"/"ff"
@@ -82,21 +85,30 @@ ReleaseRecv(t) == /\ pc[t] = "recv" /\ toCaller # <<>>
                   /\ sched' = Append(sched, <<"release", t>>)
                   /\ UNCHANGED <<toPeer, ra, eff>>
 
-Next == \E t \in Threads : Start(t) \/ Send(t) \/ Cfg(t) \/ ReleaseSent(t) \/ ReleaseRecv(t)
+\* the caller dies at its hold point (at most one per behaviour); it keeps the lock it holds
+Crash(t) == /\ MayCrash /\ pc[t] \in {"sent", "recv"} /\ \A u \in Threads : pc[u] # "dead"
+            /\ pc' = [pc EXCEPT ![t] = "dead"]
+            /\ sched' = Append(sched, <<"crash", t>>)
+            /\ UNCHANGED <<lock, toPeer, toCaller, got, ra, eff>>
+
+Next == \E t \in Threads : Start(t) \/ Send(t) \/ Cfg(t) \/ ReleaseSent(t) \/ ReleaseRecv(t) \/ Crash(t)
         \/ Peer
 Spec == Init /\ [][Next]_vars /\ WF_vars(Next)
 
 AllDone == \A t \in Threads : pc[t] = "done"
+\* everything that can still happen has happened: every caller returned, died, or waits for the lock a dead caller holds
+Settled == \A t \in Threads : \/ pc[t] \in {"done", "dead"}
+                               \/ (pc[t] = "waitlock" /\ lock # 0 /\ pc[lock] = "dead")
 
 \* --- C10 ---------------------------------------------------------------------------------
 \* no second request is written between a request and the consumption of its answer
-Indivisible == \A t \in Threads : (pc[t] \in {"sent", "recv"} /\ Awaits(t)) =>
+Indivisible == \A t \in Threads : (pc[t] \in {"sent", "recv", "dead"} /\ Awaits(t)) =>
                     \A u \in Threads \ {t} : pc[u] \notin {"sent", "recv"}
 OwnAnswer == \A t \in Threads : got[t] \in {0, t}
 \* every answer that was asked for is consumed by the call that asked for it, and by nobody else
 ConsumesItsAnswer == \A t \in Threads : (pc[t] = "done" /\ ~IsCfg(t)) => (eff[t] <=> got[t] = t)
 \* no self-deadlock: the only states without successor are those where every call completed
 NoDeadlock == (\A t \in Threads : ~ENABLED Start(t) /\ ~ENABLED Send(t) /\ ~ENABLED Cfg(t) /\ ~ENABLED ReleaseSent(t) /\ ~ENABLED ReleaseRecv(t)) /\ ~ENABLED Peer
-                 => AllDone
-Termination == <>AllDone
+                 => Settled
+Termination == <>Settled
 =============================================================================
